@@ -11,8 +11,24 @@ _path = {}
 
 
 def setup():
-	if "zero" not in _path:
-		_path["zero"] = tp.build("zero")
+	"""Build the driver once per invocation.  If trx_if.c no longer builds against the shim (a
+	refactoring may use libosmocore API the shim lacks), the trxcon profile is switched off for
+	this invocation — with a note in the output and the evidence — instead of failing every
+	check that merely shares the engine."""
+	if "zero" not in _path and "error" not in _path:
+		try:
+			_path["zero"] = tp.build("zero")
+		except RuntimeError as e:
+			_path["error"] = str(e)[-1500:]
+			print("NOTE: trxcon driver could not be built, trxcon profile disabled for this run:\n%s" % _path["error"][-600:])
+
+
+def available():
+	return "zero" in _path
+
+
+def build_error():
+	return _path.get("error")
 
 
 def arfcn_freqs(n):
